@@ -15,6 +15,37 @@ CHECKS = {
             'States are merged on model contents + alias relation + called-literal set; histories longer than the depth '
             'bound and keys/values outside the alphabet are not covered. Known finding: 0cX and "X" are one key.',
             'DESIGN.md §3 C10'),
+    'C16': ('E1-bfs', 'model_checking',
+            'explicit-state BFS over store operation histories on the real KeyValueStorage/TableStorage over an '
+            'in-memory file system vs. dict model + accounting invariants',
+            'All histories of set/get/get-missing/unload/reopen up to the stated depth on flat and nested keys, per '
+            'cache-limit class (fits exactly one entry, exactly two, default), run on the real stores through the '
+            'Klong-level forms; results compared with a dict model and the byte accounting / LRU / disk invariants are '
+            'evaluated on the real cache object after every operation. Same for the table store (documented merge).',
+            'memfs replaces the directory (module-level open/os of klongpy.db.file_cache); sequential use only '
+            '(concurrency is C18); merging on (model, entries, LRU order, byte total).',
+            'DESIGN.md §3 C16'),
+    'C17': ('E4-crash', 'fault_enumeration',
+            'exhaustive crash-image enumeration: every prefix of the recorded file-system trace x every loss pattern of '
+            'a POSIX-style persistence model, each recovered with a fresh store',
+            'For every history of up to 2/3 sets the real set path is traced at kernel-call level (real BufferedWriter '
+            'over memfs); every crash point and every allowed loss of unsynced data is materialised and read back '
+            'through a fresh KeyValueStorage; acknowledged sets must read back, other keys must be unharmed. The memfs '
+            'trace is checked against strace of the same history on a real directory.',
+            'The persistence model is a model of POSIX, not of one kernel; root directory assumed durable; '
+            'kill-at-boundary runs (thorough) keep the page cache.',
+            'DESIGN.md §3 C17, Appendix D'),
+    'C18': ('E2-sched', 'model_checking',
+            'stateless model checking of the real FileCache under a controlled scheduler: all thread interleavings up '
+            'to a preemption bound, brute-force linearizability check per execution',
+            'Real FileCache with its lock, executor and file system replaced by scheduler-controlled versions; all '
+            'schedules with <= 1 (quick) / <= 2 (thorough) preemptions of 11 / ~100 small thread configurations; every '
+            'execution is checked for deadlock, escaped exceptions, linearizability against a register model, and '
+            'disk = cache = last update, accounting = sum of entries at quiescence.',
+            'Switches only at scheduling points (lock, submit, task start, future wait, each file-system call, '
+            'unlocked accesses to the shared fields); more threads/operations/preemptions than the bound are not '
+            'covered. PandasDataFrameCache.update retry loop is not explored concurrently.',
+            'DESIGN.md §3 C18, Appendix B, F'),
 }
 
 NOT_YET = 'check not built yet in this session (work in progress; see DESIGN.md for the planned exploration)'
@@ -52,9 +83,17 @@ def main():
             'add_only': True,
         },
         'engines': [
-            {'name': 'E1-bfs', 'path': 'mc/bfs.py', 'serves_properties': ['C10'],
+            {'name': 'E1-bfs', 'path': 'mc/bfs.py', 'serves_properties': [p for p, c in CHECKS.items() if c[0] == 'E1-bfs'],
              'kind_free_text': 'explicit-state search over the real transition function (history = state), layered BFS, '
                                'canonical-state merging, 16-way fan-out'},
+            {'name': 'E2-sched', 'path': 'mc/sched.py', 'serves_properties': [p for p, c in CHECKS.items() if c[0] == 'E2-sched'],
+             'kind_free_text': 'controlled (baton) scheduler for real threads, preemption-bounded stateless DFS with '
+                               'prefix replay; deadlock / livelock verdicts; divergence on replay is a harness error'},
+            {'name': 'E3-vloop', 'path': 'mc/vloop.py', 'serves_properties': [p for p, c in CHECKS.items() if c[0] == 'E3-vloop'],
+             'kind_free_text': 'virtual-time asyncio event loop; environment answers (dispatch latency, stream '
+                               'fragmentation, faults) enumerated with a deviation bound'},
+            {'name': 'E4-crash', 'path': 'mc/props/c17_crash.py', 'serves_properties': [p for p, c in CHECKS.items() if c[0] == 'E4-crash'],
+             'kind_free_text': 'crash-image enumeration over an in-memory file system with an operation log'},
         ],
         'checks': checks,
         'not_applicable': [{'property_id': p, 'reason': NOT_YET} for p in ALL if p not in CHECKS],
